@@ -6,7 +6,8 @@
 From Coq Require Import List Bool Arith NArith Permutation.
 From Coq.Strings Require Import Byte.
 From GI Require Import Lib.Bytes Gen.TsRunConsts Txtar.Txtar
-  TsRun.TsFs TsRun.TsRegex TsRun.TsRegexFacts TsRun.TsState TsRun.TsCmds TsRun.TsRun TsRun.TsSpec TsRun.TsRunFacts.
+  TsRun.TsFs TsRun.TsRegex TsRun.TsRegexFacts TsRun.TsState TsRun.TsCmds TsRun.TsRun TsRun.TsSpec TsRun.TsRunFacts
+  TsRun.TsUpdate TsRun.TsRerun TsRun.TsRerunFacts TsRun.TsNamesFacts TsRun.TsLineFacts.
 Import ListNotations.
 
 (* one line: the interpreter returns normally exactly when the declarative demand is met *)
@@ -218,13 +219,49 @@ Proof. exact explicit_exec_not_required. Qed.
 Print Assumptions C01_explicit_exec_not_required.
 
 (* Params.RequireUniqueNames *)
-Theorem C01_unique_names_step : forall st name data r t1,
-  let p := mkabs st (expand [] name) in
+Theorem C01_unique_names_step : forall st work name data r t1,
+  let p := mkabs st (expand (s_env st) name) in
   mkdir_all (s_fs st) (dir p) 511 = (t1, true) ->
   lstat t1 p <> None ->
-  snd (unpack true ((name, data) :: r) st) = false.
+  snd (unpack true work ((name, data) :: r) st) = false.
 Proof. exact unique_names_step. Qed.
 Print Assumptions C01_unique_names_step.
+
+(* archive entry names: expanded with the initial variables, unpacked at and registered under the
+   expanded location, refused when that location is outside the work directory *)
+Theorem C01_unpack_step : forall st work (u : bool) name data r t1 t2,
+  let p := mkabs st (expand (s_env st) name) in
+  beneath work p = true ->
+  mkdir_all (s_fs st) (dir p) 511 = (t1, true) ->
+  (if u then write_file_excl t1 p data 438 else write_file t1 p data 438) = Some t2 ->
+  unpack u work ((name, data) :: r) st
+  = unpack u work r (set_fs (set_files st (assoc_set (s_files st) p name)) t2).
+Proof. exact unpack_step. Qed.
+Print Assumptions C01_unpack_step.
+
+Theorem C01_work_named_entry : forall st work (u : bool) q data r t1 t2,
+  let name := work_ref ++ [SLASH] ++ q in
+  let p := getenv (s_env st) work_key ++ [SLASH] ++ q in
+  no_dollar q = true ->
+  is_abs (getenv (s_env st) work_key) = true ->
+  beneath work p = true ->
+  mkdir_all (s_fs st) (dir p) 511 = (t1, true) ->
+  (if u then write_file_excl t1 p data 438 else write_file t1 p data 438) = Some t2 ->
+  exists st', unpack u work ((name, data) :: r) st = unpack u work r st'
+    /\ s_fs st' = t2 /\ assoc_get (s_files st') p = Some name.
+Proof. exact work_named_entry. Qed.
+Print Assumptions C01_work_named_entry.
+
+Theorem C01_escaping_name_fails_setup : forall cfg work env a pre name data post t st,
+  files a = pre ++ (name, data) :: post ->
+  mkdir_all [] (work ++ [x2f; x2e; x74; x6d; x70]) 511 = (t, true) ->
+  unpack (c_unique cfg) work pre (empty_state env work t) = (st, true) ->
+  beneath work (location work env name) = false ->
+  setup cfg work env a = (st, false)
+  /\ r_verdict (run_archive cfg work env a) = Fail 0
+  /\ r_fail_lines (run_archive cfg work env a) = [0].
+Proof. exact escaping_name_fails_setup. Qed.
+Print Assumptions C01_escaping_name_fails_setup.
 
 Theorem C01_setup_failure_is_fail_0 : forall cfg work env a st,
   setup cfg work env a = (st, false) ->
@@ -268,3 +305,91 @@ Theorem C01_custom_reached_iff : forall cfg name k,
   ~ In name (c_main_cmds cfg) /\ ~ In name script_cmd_names /\ assoc_kind (c_cmds cfg) name = Some k.
 Proof. exact custom_reached_iff. Qed.
 Print Assumptions C01_custom_reached_iff.
+
+(* the built-in conditions: GOOS / GOARCH names, unix, go1.N (name lists and goVersionRegex regenerated) *)
+Theorem C01_cond_goos : forall cfg st c,
+  In c known_os_names -> cond_eval cfg st c = CondVal (bytes_eqb c (c_goos cfg)).
+Proof. exact cond_goos. Qed.
+Print Assumptions C01_cond_goos.
+
+Theorem C01_cond_goos_unique : forall cfg st c1 c2,
+  In c1 known_os_names -> In c2 known_os_names ->
+  cond_eval cfg st c1 = CondVal true -> cond_eval cfg st c2 = CondVal true -> c1 = c2.
+Proof. exact cond_goos_unique. Qed.
+Print Assumptions C01_cond_goos_unique.
+
+Theorem C01_cond_unix : forall cfg st,
+  cond_eval cfg st unix_name = CondVal (mem_bytes (c_goos cfg) unix_os_names).
+Proof. exact cond_unix. Qed.
+Print Assumptions C01_cond_unix.
+
+Theorem C01_cond_goarch : forall cfg st c,
+  In c known_arch_names -> cond_eval cfg st c = CondVal (bytes_eqb c (c_goarch cfg)).
+Proof. exact cond_goarch. Qed.
+Print Assumptions C01_cond_goarch.
+
+Theorem C01_cond_go_version : forall cfg st c v,
+  go_version c = Some v -> cond_eval cfg st c = CondVal (release_tag_holds (c_go_minor cfg) v).
+Proof. exact cond_go_version. Qed.
+Print Assumptions C01_cond_go_version.
+
+Theorem C01_release_tag_spec : forall m major minor,
+  release_tag_holds m (major, minor) = true <-> major = 1%N /\ (1 <= minor <= m)%N.
+Proof. exact release_tag_spec. Qed.
+Print Assumptions C01_release_tag_spec.
+
+Theorem C01_release_tags_downward : forall m a b,
+  release_tag_holds m (1%N, a) = true -> (1 <= b)%N -> (b <= a)%N -> release_tag_holds m (1%N, b) = true.
+Proof. exact release_tags_downward. Qed.
+Print Assumptions C01_release_tags_downward.
+
+Theorem C01_guard_runs_iff : forall cfg st (want : bool) c b w rest,
+  guard_of w = Some (want, c) -> rest <> [] -> cond_eval cfg st c = CondVal b ->
+  run_guards cfg st (w :: rest) = (if Bool.eqb b want then run_guards cfg st rest else Done st).
+Proof. exact guard_runs_iff. Qed.
+Print Assumptions C01_guard_runs_iff.
+
+Theorem C01_go_version_regex_current :
+  go_version_regex = [x5e; x67; x6f; x28; x5b; x31; x2d; x39; x5d; x5b; x30; x2d; x39; x5d; x2a; x29; x5c; x2e;
+                      x28; x5b; x31; x2d; x39; x5d; x5b; x30; x2d; x39; x5d; x2a; x29; x24].
+Proof. exact go_version_regex_current. Qed.
+Print Assumptions C01_go_version_regex_current.
+
+(* exists / ! exists: every operand counts, whatever its position *)
+Theorem C01_not_exists_iff : forall st f fs,
+  bytes_eqb f readonly_flag = false ->
+  cmd_exists true (f :: fs) st = Done st <-> forall g, In g (f :: fs) -> stat (s_fs st) (mkabs st g) = None.
+Proof. exact not_exists_iff. Qed.
+Print Assumptions C01_not_exists_iff.
+
+Theorem C01_exists_iff : forall st f fs,
+  bytes_eqb f readonly_flag = false ->
+  cmd_exists false (f :: fs) st = Done st <-> forall g, In g (f :: fs) -> stat (s_fs st) (mkabs st g) <> None.
+Proof. exact exists_iff. Qed.
+Print Assumptions C01_exists_iff.
+
+Theorem C01_exists_state : forall neg args st, outcome_state (cmd_exists neg args st) = st.
+Proof. exact exists_state. Qed.
+Print Assumptions C01_exists_state.
+
+(* a program that cannot be started: the line fails (or meets "!"); started with a path, it is "the
+   next exec command" all the same: the pending standard input is consumed, the old output is gone *)
+Theorem C01_exec_cannot_start : forall cfg neg prog rest st,
+  bg_spec (last (prog :: rest) []) = None -> can_start cfg st prog = false ->
+  cmd_exec cfg neg (prog :: rest) st
+  = (if neg then Done (start_failed_state cfg st prog) else Failed (start_failed_state cfg st prog)).
+Proof. exact exec_cannot_start. Qed.
+Print Assumptions C01_exec_cannot_start.
+
+Theorem C01_start_failure_consumes_stdin : forall cfg st prog,
+  has_slash prog = true ->
+  let st' := start_failed_state cfg st prog in
+  s_in st' = [] /\ s_out st' = [] /\ s_err st' = [] /\ s_fs st' = s_fs st /\ s_env st' = s_env st /\ s_cd st' = s_cd st /\ s_bg st' = s_bg st.
+Proof. exact start_failure_consumes_stdin. Qed.
+Print Assumptions C01_start_failure_consumes_stdin.
+
+Theorem C01_lookup_failure_keeps_stdin : forall cfg st prog,
+  is_bare prog = true -> prog_found cfg st prog = false ->
+  s_in (start_failed_state cfg st prog) = s_in st /\ s_out (start_failed_state cfg st prog) = [].
+Proof. exact lookup_failure_keeps_stdin. Qed.
+Print Assumptions C01_lookup_failure_keeps_stdin.
